@@ -13,7 +13,7 @@
 //                 whole-set operation, every binary operation with every value b of the value set,
 //                 the integer constructors and the string constructors, and compares ALL observers
 //                 with std::bitset after each step.  Plus one case per config with strings longer than N.
-//   random      : seeded histories of 64 steps mixing all of the above.
+//   random      : seeded histories of 64 steps (thorough: every 8th 256 steps) mixing all of the above.
 #include "vf.hpp"
 #include "vf_contract.hpp"
 
@@ -1239,14 +1239,13 @@ struct H {
     }
 
     // ---------------------------------------------------------------- random history
-    void random_case(vf::Rng& r)
+    void random_case(vf::Rng& r, int len)
     {
         build_state(random_value(r), (unsigned)r.below(kRoutes));
         std::vector<int> ops;
         for (int op = 0; op < OP_NUM; ++op) {
             if (supported(op)) { ops.push_back(op); }
         }
-        int const len = 64;
         for (int s = 0; s < len; ++s) {
             unsigned pick = (unsigned)r.below(ops.size() + 4);
             if (pick >= ops.size()) {
@@ -1337,7 +1336,8 @@ struct H {
     static void run_random(vf::Case& c)
     {
         H h(c.tier);
-        h.random_case(c.rng);
+        // thorough: every 8th history is 256 steps long
+        h.random_case(c.rng, (c.tier == vf::Tier::thorough && vf::mix(c.index, 17) % 8 == 0) ? 256 : 64);
     }
 };
 
@@ -1371,7 +1371,7 @@ vf::Spec spec(vf::Tier t)
 {
     vf::Spec s;
     for (Cfg const& c : configs()) { s.n_enum += c.n_enum; }
-    s.n_random   = configs().size() * (t == vf::Tier::thorough ? 3000u : 150u);
+    s.n_random   = configs().size() * (t == vf::Tier::thorough ? 5000u : 150u);
     s.batch      = 16;
     s.timeout_s  = 300;
     s.exhaustive = true;
